@@ -211,3 +211,146 @@ Lemma no_deadlock sg r0 st0 tr s :
   run sg (init r0 st0) tr = Some s -> (exists t, holding (pcs s t) = true) ->
   exists e s', step sg s e = Some s'.
 Proof. intros H Hh. eapply progress; eauto. eapply runS; eauto using invS_init. Qed.
+
+(* ---------- every execution without new calls is finite ---------- *)
+
+Definition weight (p : pc) : nat :=
+  match p with
+  | Idle => 0 | Got _ => 9 | Wait => 8 | Prep => 7 | Prepared _ => 6 | NeedPut _ _ => 5
+  | NeedDel _ _ => 4 | Completing _ => 3 | Ret _ => 1 | Done _ => 0
+  end%nat.
+
+Definition mu (L : list tid) (f : tid -> pc) : nat := list_sum (map (fun t => weight (f t)) L).
+
+Lemma mu_le L f g : (forall x, weight (g x) <= weight (f x))%nat -> (mu L g <= mu L f)%nat.
+Proof.
+  intro H. unfold mu. induction L as [|h l IH]; simpl; auto. specialize (H h). lia.
+Qed.
+
+Lemma mu_lt L f g t :
+  (forall x, weight (g x) <= weight (f x))%nat -> In t L -> (weight (g t) < weight (f t))%nat ->
+  (mu L g < mu L f)%nat.
+Proof.
+  intros H Hin Hlt. unfold mu. induction L as [|h l IH]; simpl; [destruct Hin|].
+  destruct Hin as [->|Hin].
+  - pose proof (mu_le l f g H) as Hle. unfold mu in Hle. lia.
+  - specialize (IH Hin). specialize (H h). lia.
+Qed.
+
+Definition is_get (e : event) : bool := match e with EGet _ _ => true | _ => false end.
+
+Lemma mu_upd L f t p :
+  In t L -> (weight p < weight (f t))%nat -> (mu L (upd f t p) < mu L f)%nat.
+Proof.
+  intros Hin Hlt. apply (mu_lt L f (upd f t p) t); auto.
+  - intro x. destruct (Nat.eq_dec x t) as [->|Hne]; [rewrite upd_eq; lia|rewrite upd_neq; auto].
+  - now rewrite upd_eq.
+Qed.
+
+Lemma holding_upd_keep (f : tid -> pc) t p (L : list tid) :
+  In t L -> (forall x, holding (f x) = true -> In x L) ->
+  forall x, holding (upd f t p x) = true -> In x L.
+Proof.
+  intros Hin H x Hx. destruct (Nat.eq_dec x t) as [->|Hne]; auto. rewrite upd_neq in Hx; auto.
+Qed.
+
+Lemma step_decreases sg s e s' L :
+  InvS s -> step sg s e = Some s' -> is_get e = false ->
+  (forall t, holding (pcs s t) = true -> In t L) ->
+  (mu L (pcs s') < mu L (pcs s))%nat /\ (forall t, holding (pcs s' t) = true -> In t L).
+Proof.
+  intros I H Hg HL. destruct e; try discriminate; simpl in H.
+  - (* EAssign *)
+    destruct (pcs s t) eqn:Hpc; try discriminate.
+    assert (Hin : In t L) by (apply HL; rewrite Hpc; reflexivity).
+    destruct (committed s); injection H as <-; simpl;
+      (split; [apply mu_upd; auto; rewrite Hpc; simpl; lia | now apply holding_upd_keep]).
+  - (* ERecvMain *)
+    destruct (pcs s t) eqn:Hpc; try discriminate.
+    assert (Hin : In t L) by (apply HL; rewrite Hpc; reflexivity).
+    destruct (token s && mem t (batch s)); try discriminate. injection H as <-; simpl.
+    split; [apply mu_upd; auto; rewrite Hpc; simpl; lia | now apply holding_upd_keep].
+  - (* EPrepare *)
+    destruct (pcs s t) eqn:Hpc; try discriminate.
+    assert (Hin : In t L) by (apply HL; rewrite Hpc; reflexivity).
+    injection H as <-; simpl.
+    split; [apply mu_upd; auto; rewrite Hpc; simpl; lia | now apply holding_upd_keep].
+  - (* ECommit *)
+    destruct (pcs s t) as [|c0| | |old|nw o|oi ap|r|r|r] eqn:Hpc; try discriminate.
+    assert (Hin : In t L) by (apply HL; rewrite Hpc; reflexivity).
+    destruct old as [o|].
+    + destruct (apply_changes (idx o) (map snd (items s))) as [|new].
+      * injection H as <-; simpl.
+        split; [apply mu_upd; auto; rewrite Hpc; simpl; lia | now apply holding_upd_keep].
+      * destruct (negb (is_nil new) || sg).
+        -- injection H as <-; simpl.
+           split; [apply mu_upd; auto; rewrite Hpc; simpl; lia | now apply holding_upd_keep].
+        -- destruct o; injection H as <-; simpl;
+             (split; [apply mu_upd; auto; rewrite Hpc; simpl; lia | now apply holding_upd_keep]).
+    + injection H as <-; simpl.
+      split; [apply mu_upd; auto; rewrite Hpc; simpl; lia | now apply holding_upd_keep].
+  - (* EPut *)
+    destruct (pcs s t) as [|c0| | |old|nw o|oi ap|r|r|r] eqn:Hpc; try discriminate.
+    assert (Hin : In t L) by (apply HL; rewrite Hpc; reflexivity).
+    destruct fail; injection H as <-; simpl.
+    + split; [apply mu_upd; auto; rewrite Hpc; simpl; lia | now apply holding_upd_keep].
+    + split; [apply mu_upd; auto; rewrite Hpc; unfold after_put; destruct sg; [simpl; lia|]; destruct o; simpl; lia
+             | now apply holding_upd_keep].
+  - (* EDel *)
+    destruct (pcs s t) as [|c0| | |old|nw o|oi ap|r|r|r] eqn:Hpc; try discriminate.
+    assert (Hin : In t L) by (apply HL; rewrite Hpc; reflexivity).
+    destruct fail; [|destruct ap]; injection H as <-; simpl;
+      (split; [apply mu_upd; auto; rewrite Hpc; simpl; lia | now apply holding_upd_keep]).
+  - (* EComplete *)
+    destruct (pcs s t) as [|c0| | |old|nw o|oi ap|r|r|r] eqn:Hpc; try discriminate.
+    assert (Hin : In t L) by (apply HL; rewrite Hpc; reflexivity).
+    injection H as <-; simpl. fold (complete_pcs s t r).
+    assert (Hw : forall x, (weight (complete_pcs s t r x) <= weight (pcs s x))%nat).
+    { intro x. destruct (complete_pcs_cases s t r x) as [[[E0|E0] E]|(_ & _ & E)]; rewrite E; [| |lia].
+      - subst x. rewrite Hpc. simpl. lia.
+      - destruct (batch_member s x I E0) as [Ew|Em]; [rewrite Ew; simpl; lia|].
+        destruct (pcs s x); try discriminate; simpl; lia. }
+    split.
+    + apply (mu_lt L (pcs s) (complete_pcs s t r) t); auto.
+      destruct (complete_pcs_cases s t r t) as [[_ E]|(A & _)]; [|congruence].
+      rewrite E, Hpc. simpl. lia.
+    + intros x Hx. apply HL.
+      destruct (complete_pcs_cases s t r x) as [[[E0|E0] E]|(_ & _ & E)].
+      * subst x. rewrite Hpc. reflexivity.
+      * destruct (batch_member s x I E0) as [Ew|Em]; [now rewrite Ew|now apply main_holding].
+      * now rewrite <- E.
+  - (* EDone *)
+    destruct (pcs s t) as [|c0| | |old|nw o|oi ap|r|r|r] eqn:Hpc; try discriminate.
+    assert (Hin : In t L) by (apply HL; rewrite Hpc; reflexivity).
+    destruct (pool s); try discriminate. injection H as <-; simpl.
+    split; [apply mu_upd; auto; rewrite Hpc; simpl; lia | now apply holding_upd_keep].
+Qed.
+
+Lemma bounded_run sg L tr : forall s s',
+  InvS s -> (forall t, holding (pcs s t) = true -> In t L) ->
+  forallb (fun e => negb (is_get e)) tr = true -> run sg s tr = Some s' ->
+  (length tr + mu L (pcs s') <= mu L (pcs s))%nat.
+Proof.
+  induction tr as [|e tr IH]; intros s s' I HL F H; simpl in *.
+  - injection H as <-. lia.
+  - destruct (step sg s e) as [s1|] eqn:E; [|discriminate].
+    apply andb_true_iff in F as [F1 F2]. apply negb_true_iff in F1.
+    destruct (step_decreases sg s e s1 L I E F1 HL) as [Hlt HL1].
+    assert (I1 : InvS s1) by (eapply stepS; eauto).
+    specialize (IH s1 s' I1 HL1 F2 H). lia.
+Qed.
+
+(* from every reachable state: there is a bound such that every continuation
+   without new calls is at most that long *)
+Lemma bounded_completion sg r0 st0 tr s :
+  run sg (init r0 st0) tr = Some s ->
+  exists bound, forall tr' s',
+    forallb (fun e => negb (is_get e)) tr' = true -> run sg s tr' = Some s' ->
+    (length tr' <= bound)%nat.
+Proof.
+  intro H. assert (I : InvS s) by (eapply runS; eauto using invS_init).
+  destruct (i_pool s I) as (hs & _ & Hin & _).
+  exists (mu hs (pcs s)). intros tr' s' F R.
+  assert (HL : forall t, holding (pcs s t) = true -> In t hs) by (intros t Ht; now apply Hin).
+  pose proof (bounded_run sg hs tr' s s' I HL F R). lia.
+Qed.
